@@ -37,6 +37,7 @@ type Universe struct {
 	fset        *token.FileSet
 	bindingErrs []string
 	cg          *callGraph
+	knownFailing map[string]bool
 }
 
 var repoPkgs = []string{
@@ -91,6 +92,12 @@ func loadUniverse(repo, verif string, overlay map[string][]byte, preferMirror bo
 				u.funcs[p.PkgPath+"."+key] = fi
 				u.byObj[obj] = fi
 			}
+		}
+	}
+	u.knownFailing = map[string]bool{}
+	for _, k := range loadKnown(verif) {
+		if k.Status == "known" {
+			u.knownFailing[k.Obligation] = true
 		}
 	}
 	// contracts
@@ -190,6 +197,8 @@ type table struct {
 	entries []tableEntry
 	ok      bool
 	why     string
+
+	presenceOnly bool
 }
 
 type tableEntry struct {
@@ -214,8 +223,11 @@ func (e *Eng) tableOfVar(v *types.Var) *table {
 		return nil
 	}
 	t.keyKind, t.valKind = e.kindOf(m.Key()), e.kindOf(m.Elem())
-	if t.keyKind != KStr && t.keyKind != KInt || (t.valKind != KBool && t.valKind != KStr && t.valKind != KInt) {
+	if t.keyKind != KStr && t.keyKind != KInt {
 		return nil
+	}
+	if t.valKind != KBool && t.valKind != KStr && t.valKind != KInt {
+		t.presenceOnly = true // only "is the key present" is modelled
 	}
 	pkg := e.u.allPkgs[v.Pkg().Path()]
 	if pkg == nil || pkg.TypesInfo == nil {
@@ -260,7 +272,7 @@ func (e *Eng) tableOfVar(v *types.Var) *table {
 			return nil
 		}
 		ktv, vtv := pkg.TypesInfo.Types[kv.Key], pkg.TypesInfo.Types[kv.Value]
-		if ktv.Value == nil || vtv.Value == nil {
+		if ktv.Value == nil || (vtv.Value == nil && !t.presenceOnly) {
 			t.why = "non-constant entry"
 			return nil
 		}
@@ -327,7 +339,11 @@ func (e *Eng) tableLookup(t *table, k Val, c *ctx, commaOk bool) Val {
 			ins = append(ins, "(= k "+key(en)+")")
 		}
 		e.decls = append(e.decls, fmt.Sprintf("(define-fun %s ((k %s)) Bool (or false %s))", inName, ksort, strings.Join(ins, " ")))
-		switch t.valKind {
+		vk := t.valKind
+		if t.presenceOnly {
+			vk = KUnit
+		}
+		switch vk {
 		case KBool:
 			var ts []string
 			for _, en := range t.entries {
@@ -360,6 +376,9 @@ func (e *Eng) tableLookup(t *table, k Val, c *ctx, commaOk bool) Val {
 		kt = e.convertInt(k, m.Key(), c).T
 	}
 	v := Val{K: t.valKind, T: "(" + valName + " " + kt + ")", GoT: m.Elem()}
+	if t.presenceOnly {
+		v = e.symFor("tblval", m.Elem(), c.st)
+	}
 	if commaOk {
 		return Val{K: KTuple, Elts: []Val{v, {K: KBool, T: "(" + inName + " " + kt + ")", GoT: types.Typ[types.Bool]}}}
 	}
